@@ -32,6 +32,7 @@ type c02Case struct {
 	eager    bool   // timers may fire at any point (queue family: give-up racing hand-off)
 	remove   string // partitioned strategies: a thread removes this partition while its tokens are outstanding
 	backlog  int    // queue family: maximum backlog (0 = 10); 1 makes one of two racing callers hit a full backlog
+	fast     bool   // every completion is faster than the minimum RTT threshold (successes are not samples)
 }
 
 // endState checks that nothing is held anywhere and that the full limit is admitted again.
@@ -129,10 +130,10 @@ func c02Scenario(cs c02Case) *mc.Scenario {
 	return &mc.Scenario{
 		Name: fmt.Sprintf("C02/%s", cs.kind),
 		Params: fmt.Sprintf("strategy=%s limit=%d callers=%d holder-outcome=%s cancel=%v keys=%v eager-clock=%v remove-partition=%q max-backlog=%d", cs.strategy, cs.limit, cs.callers,
-			outcomeNames[cs.outcome], cs.cancel, cs.keys, cs.eager, cs.remove, cs.backlog),
+			outcomeNames[cs.outcome], cs.cancel, cs.keys, cs.eager, cs.remove, cs.backlog) + map[bool]string{true: " below-rtt-threshold", false: ""}[cs.fast],
 		Cfg: vrt.Config{EagerClock: cs.eager, MaxSteps: 6000},
 		Body: func(x *mc.Exec) {
-			st := buildStack(cs.kind, cs.limit, stackOpts{strategy: cs.strategy, timeout: 20 * time.Millisecond, deadlineIn: 20 * time.Millisecond, maxBacklog: cs.backlog})
+			st := buildStack(cs.kind, cs.limit, stackOpts{strategy: cs.strategy, timeout: 20 * time.Millisecond, deadlineIn: 20 * time.Millisecond, maxBacklog: cs.backlog, minRTT: map[bool]int64{true: 1e15, false: 0}[cs.fast]})
 			key := func(i int) string {
 				if len(cs.keys) == 0 {
 					return ""
@@ -239,6 +240,8 @@ func runC02(c *Ctx) {
 			for o := 0; o < 3; o++ {
 				c.Explore(c02Scenario(c02Case{kind: "default", strategy: sk, limit: 1, callers: 2, outcome: o, keys: ks}), opt)
 			}
+			// successes faster than the minimum RTT threshold return their unit without becoming a sample
+			c.Explore(c02Scenario(c02Case{kind: "default", strategy: sk, limit: 1, callers: 2, outcome: 0, keys: ks, fast: true}), opt)
 			if c.Thorough() {
 				c.Explore(c02Scenario(c02Case{kind: "default", strategy: sk, limit: 2, callers: 3, outcome: 0, keys: ks}), opt)
 			}
